@@ -3,6 +3,7 @@ package spec
 import (
 	"fmt"
 	"io"
+	"sort"
 
 	"github.com/moorara/algo/errors"
 	"github.com/moorara/algo/grammar"
@@ -363,7 +364,7 @@ func Parse(filename string, src io.Reader) (*Spec, error) {
 
 			grammar := grammar.NewCFG(table.Terminals(), table.NonTerminals(), table.Productions(), "start")
 			if err := grammar.Verify(); err != nil {
-				errs = errors.Append(errs, err)
+				errs = errors.Append(errs, sortErrors(err)...)
 			}
 
 			precedences := table.Precedences()
@@ -391,4 +392,19 @@ func Parse(filename string, src io.Reader) (*Spec, error) {
 	}
 
 	return res.Val.(*Spec), nil
+}
+
+// sortErrors returns the errors accumulated in err ordered by their messages.
+// The grammar is verified over sets of symbols and productions, which are visited in no particular order.
+func sortErrors(err error) []error {
+	list := []error{err}
+	if m, ok := err.(interface{ Unwrap() []error }); ok {
+		list = append([]error{}, m.Unwrap()...)
+	}
+
+	sort.SliceStable(list, func(i, j int) bool {
+		return list[i].Error() < list[j].Error()
+	})
+
+	return list
 }
